@@ -533,7 +533,44 @@ def bmc_unbound_reads(instrs, exempt, steps=None):
     return verdict, dict(info=info, steps=T, frame_depth_within_encoding=bound_ok, names=names), time.time() - t0
 
 
-def sym_unbound_reads(instrs, exempt, unroll=2):
+OUTSIDE_C18_MACROS = ('CallBlock', 'Include', 'LoadBlocks', 'ExportLocals', 'FastSuper')
+MACRO_SPECIALS = ('caller', 'varargs', 'kwargs', 'self', 'loop')
+
+
+def macro_units(instrs):
+    """[(name, body entry pc, BuildMacro pc, enclosed names)] for every BuildMacro of a stream.  The enclosed
+    names are the Enclose instructions of the run that ends in `GetClosure; LoadConst(params); BuildMacro`."""
+    out = []
+    for pc, ins in enumerate(instrs):
+        if ins['op'] != 'BuildMacro':
+            continue
+        name, entry = ins['arg'][0], ins['arg'][1]
+        q = pc - 1
+        while q >= 0 and instrs[q]['op'] != 'GetClosure':
+            q -= 1
+        enclosed = []
+        q -= 1
+        while q >= 0 and instrs[q]['op'] == 'Enclose':
+            enclosed.append(instrs[q]['arg'])
+            q -= 1
+        out.append((name, entry, pc, sorted(enclosed)))
+    return out
+
+
+def template_level_stores(instrs):
+    """Names assigned by StoreLocal outside every macro body (macro bodies are the pc ranges skipped by the
+    `Jump` that precedes them: body entry .. jump target - 1)."""
+    bodies = []
+    for name, entry, bpc, _ in macro_units(instrs):
+        j = entry - 1
+        if j >= 0 and instrs[j]['op'] == 'Jump':
+            bodies.append((entry, instrs[j]['arg']))
+    inside = lambda pc: any(a <= pc < b for a, b in bodies)
+    return sorted({i['arg'] for pc, i in enumerate(instrs)
+                   if i['op'] == 'StoreLocal' and isinstance(i.get('arg'), str) and not inside(pc)})
+
+
+def sym_unbound_reads(instrs, exempt, unroll=2, entry=0, macros=False, only=None):
     """Symbolic execution with state merging over the loop-unrolled control-flow DAG of the real
     instruction stream.  Every conditional jump / iterator exhaustion is a free boolean; each frame's set
     of bound names is a bit-vector term built with ite() over those booleans; the query asks z3 whether
@@ -541,14 +578,17 @@ def sym_unbound_reads(instrs, exempt, unroll=2):
     Loops are unrolled `unroll` iterations (a third visit of a loop head is forced to exit).
     Returns (verdict, info, seconds, stats)."""
     n = len(instrs)
-    if any(i['op'] in OUTSIDE_C18 for i in instrs):
+    if any(i['op'] in (OUTSIDE_C18_MACROS if macros else OUTSIDE_C18) for i in instrs):
         return 'skipped', 'outside the fragment', 0.0, {}
-    names = sorted({i['arg'] for i in instrs if i['op'] in ('Lookup', 'StoreLocal') and isinstance(i.get('arg'), str)})
+    names = sorted({i['arg'] for i in instrs if i['op'] in ('Lookup', 'StoreLocal', 'Enclose') and isinstance(i.get('arg'), str)})
     if not names:
         return 'unsat', dict(note='no names'), 0.0, {}
     idx = {nm: j for j, nm in enumerate(names)}
     w = len(names)
     BV = lambda v: z3.BitVecVal(v, w)
+    # `entry` != 0: a macro body, executed from its first instruction with one empty frame (the macro's own)
+    # until Return; `only`: restrict the candidate reads to these names.  In the root unit an `Enclose(n)`
+    # reads n from the defining scope exactly like a Lookup (the closure is filled at BuildMacro time).
     # --- unrolled DAG: node = (pc, ctx) with ctx = tuple of (loop head pc, visits)
     def bump(ctx, head):
         d = dict(ctx)
@@ -592,7 +632,7 @@ def sym_unbound_reads(instrs, exempt, unroll=2):
                         stack.append((sn, 0))
             else:
                 order.append(nd)
-    dfs((0, ()))
+    dfs((entry, ()))
     if len(order) > 6000:
         return 'unknown', 'unrolled graph too large (%d nodes)' % len(order), 0.0, {}
     order.reverse()  # topological
@@ -601,10 +641,10 @@ def sym_unbound_reads(instrs, exempt, unroll=2):
     state = {}
     viol = []
     nchoice = 0
-    entry = (0, ())
+    entry_nd = (entry, ())
     for nd in order:
         pc, ctx = nd
-        if nd == entry:
+        if nd == entry_nd:
             reach[nd] = z3.BoolVal(True)
             state[nd] = [(BV(0), 0)]
         else:
@@ -629,7 +669,7 @@ def sym_unbound_reads(instrs, exempt, unroll=2):
         ins = instrs[pc]
         op, arg = ins['op'], ins.get('arg')
         st = state[nd]
-        if op == 'Lookup' and isinstance(arg, str) and arg not in exempt:
+        if op in ('Lookup', 'Enclose') and isinstance(arg, str) and arg not in exempt and (only is None or arg in only):
             if arg == 'loop':
                 bound = z3.BoolVal(any(k == 2 for _, k in st))
             else:
